@@ -4,7 +4,8 @@ package main
 //
 // Implementation under test: fluentdforward.Config.VerifyConfig + NewEventSerializer + SerializeRecord, with the
 // real rewriters (rinline, runescape, rcopy) built from a SerializationConfig the way the package's tests build it.
-// defs.InputLogMaxRecordBytes is set per case, so the fixed serializer buffer (2x that) is small.
+// defs.InputLogMaxRecordBytes is set per case, so the preallocated serializer buffer (2x that) is small and events
+// below, at and above it (the one-off buffer of fix 413c995) are cheap.
 //
 // A case is a SEQUENCE of records pushed through the same long-lived serializer instances (nout of them = the
 // outputs of one pipeline: every record goes to every output, as in LogProcessingWorker.onInput).
@@ -19,6 +20,8 @@ package main
 //
 // Oracle (independent of the Coq model): the stream is decoded with vmihailenco/msgpack (low-level calls, order and
 // duplicates preserved) and compared with the fields computed from the record by the reference functions below.
+// Since fix 413c995 (one-off buffer for a record that may not fit the preallocated one) EVERY record must be
+// emitted: a panic or an empty stream is a failure of the property whatever the size of the event.
 
 import (
 	"bytes"
@@ -317,6 +320,50 @@ func c10Expected(cc *c10Case, rc *c10Rec, rawUnescape map[string]bool) (entries 
 	return
 }
 
+// c10Bound is the upper bound of the encoded length that SerializeRecord computes first (maxEncodedLength), from
+// names only: 1+10+3+12+3, len(serialized key)+5+(reserved maximum of the chain | len(value)) per visible field,
+// len(serialized key)+5+len(value) per environment field.  It is NOT part of the oracle (the property does not say
+// which buffer is used); the generator aims buffer sizes at it and the junk record is sized with it.
+func c10Bound(cc *c10Case, rc *c10Rec) int {
+	get := func(name string) string {
+		i := c10Index(cc.schema, name)
+		if i < 0 || i >= len(rc.fields) {
+			return ""
+		}
+		return rc.fields[i]
+	}
+	bound := 1 + 10 + 3 + 12 + 3
+	for i, name := range cc.schema {
+		v := rc.fields[i]
+		if v == "" || c10Index(cc.env, name) >= 0 || c10Index(cc.hidden, name) >= 0 {
+			continue
+		}
+		bound += c10StrHdr(len(name)) + len(name) + 5
+		var chain []c10Step
+		for _, r := range cc.rw {
+			if r.field == name {
+				chain = r.chain
+				break
+			}
+		}
+		if len(chain) == 0 {
+			bound += len(v)
+			continue
+		}
+		for _, st := range chain {
+			if st.code != c10Inline {
+				bound += len(v)
+			} else if fv := get(st.field); fv != "" {
+				bound += len(st.field) + 1 + len(fv) + 1
+			}
+		}
+	}
+	for _, name := range cc.env {
+		bound += c10StrHdr(len(name)) + len(name) + 5 + len(get(name))
+	}
+	return bound
+}
+
 // c10Decode decodes one event with the msgpack library, keeping order and duplicates of map entries.
 func c10Decode(stream []byte) (sec, nsec uint32, entries []c10KV, err error) {
 	rd := bytes.NewReader(stream)
@@ -529,16 +576,40 @@ func c10Run(c *Case) (out string, fails []Fail) {
 		return newOut, fails
 	}
 	bufLen := 2 * cc.M
-	// every serializer first sees a record that fills its buffer with 0xEE: no byte of an earlier record may show
-	junk := &base.LogRecord{Fields: make(base.LogFields, cc.nrec), RawLength: 1, Timestamp: time.Unix(0xEEEEEEEE, 0x2EEEEEEE)}
-	for i := range junk.Fields {
-		junk.Fields[i] = strings.Repeat("\xee", 1+bufLen/(cc.nrec+1))
+	// every serializer first sees a record that fills its preallocated buffer with 0xEE: no byte of an earlier record
+	// may show.  The junk record is the longest one that is still encoded into the preallocated buffer (upper bound of
+	// its encoded length below len(buffer)); a longer one would go to a one-off buffer and leave this one untouched.
+	junkRec := c10Rec{unix: 0xEEEEEEEE, nsec: 0x2EEEEEEE, fields: make([]string, cc.nrec)}
+	junkFits := false
+	if len(cc.schema) > 0 && len(cc.schema) == len(uniq(cc.schema)) {
+		// the bound is affine in the common length l >= 1 of the junk fields: start from the solution, then step down
+		setJunk := func(l int) int {
+			for i := range junkRec.fields {
+				junkRec.fields[i] = strings.Repeat("\xee", l)
+			}
+			return c10Bound(cc, &junkRec)
+		}
+		b1 := setJunk(1)
+		slope := setJunk(2) - b1
+		l := 1 + bufLen/(cc.nrec+1)
+		if slope > 0 && (bufLen-1-b1)/slope+1 < l {
+			l = (bufLen-1-b1)/slope + 1
+		}
+		for ; l >= 0 && !junkFits; l-- {
+			junkFits = setJunk(l) < bufLen
+		}
 	}
-	for _, ser := range sers {
-		func() {
-			defer func() { _ = recover() }()
-			ser.SerializeRecord(junk)
-		}()
+	if junkFits {
+		junk := &base.LogRecord{Fields: make(base.LogFields, cc.nrec), RawLength: 1, Timestamp: time.Unix(junkRec.unix, junkRec.nsec)}
+		for i := range junk.Fields {
+			junk.Fields[i] = junkRec.fields[i]
+		}
+		for _, ser := range sers {
+			func() {
+				defer func() { _ = recover() }()
+				ser.SerializeRecord(junk)
+			}()
+		}
 	}
 
 	var recOuts []string
@@ -565,16 +636,20 @@ func c10Run(c *Case) (out string, fails []Fail) {
 			where := fmt.Sprintf("record %d of %d, output %d of %d, case %s", ri+1, len(cc.recs), j+1, len(sers), c10Describe(cc, rc))
 			switch {
 			case panicked:
+				// never allowed: an event that does not fit the preallocated buffer goes to a one-off buffer
 				outs = append(outs, "panic")
 				if wantSize < bufLen {
 					fails = append(fails, Fail{"c10:panic", fmt.Sprintf("SerializeRecord panics although the event (%d bytes) fits the %d-byte buffer; %s", wantSize, bufLen, where)})
 				} else {
-					fails = append(fails, Fail{"c10:overflow-panic", fmt.Sprintf("SerializeRecord panics: event of %d bytes, buffer %d; %s", wantSize, bufLen, where)})
+					fails = append(fails, Fail{"c10:overflow-panic", fmt.Sprintf("SerializeRecord panics: event of %d bytes (upper bound %d), preallocated buffer %d; %s", wantSize, c10Bound(cc, rc), bufLen, where)})
 				}
 			case len(stream) == 0:
+				// never allowed either: the record is lost (and an empty stream is counted as a record of the chunk)
 				outs = append(outs, "full")
 				if wantSize < bufLen {
 					fails = append(fails, Fail{"c10:dropped", fmt.Sprintf("no event emitted although it (%d bytes) fits the %d-byte buffer; %s", wantSize, bufLen, where)})
+				} else {
+					fails = append(fails, Fail{"c10:overflow-dropped", fmt.Sprintf("no event emitted: event of %d bytes (upper bound %d), preallocated buffer %d; %s", wantSize, c10Bound(cc, rc), bufLen, where)})
 				}
 			default:
 				outs = append(outs, c10Canon(stream))
@@ -618,6 +693,18 @@ func c10Run(c *Case) (out string, fails []Fail) {
 		recOuts = append(recOuts, strings.Join(outs, ";"))
 	}
 	return strings.Join(recOuts, "/"), fails
+}
+
+func uniq(xs []string) []string {
+	seen := map[string]bool{}
+	var out []string
+	for _, x := range xs {
+		if !seen[x] {
+			seen[x] = true
+			out = append(out, x)
+		}
+	}
+	return out
 }
 
 func c10Describe(cc *c10Case, rc *c10Rec) string {
